@@ -111,8 +111,12 @@ func (op R2m) Op_instruction_verilog_footer(arch *Arch, flavor string) string {
 		ramAddr = " (current_instruction[" + strconv.Itoa(rom_word-1) + ":" + strconv.Itoa(rom_word-opbits) + "]==M2RRI) ? addr_ram_m2rri: " + ramAddr
 	}
 
-	if arch.Modes[0] == "hy" || arch.Modes[0] == "vn" {
+	switch arch.Modes[0] {
+	case "hy":
 		ramAddr = " (exec_mode == 1'b1 && vn_state == FETCH) ? _pc : " + ramAddr
+	case "vn":
+		// a von Neumann processor always fetches from the RAM and has no exec_mode register
+		ramAddr = " (vn_state == FETCH) ? _pc : " + ramAddr
 	}
 
 	if arch.OnlyOne(op.Op_get_name(), []string{"r2mri", "r2m", "m2r", "m2rri"}) {
